@@ -257,7 +257,7 @@ class C12(core.Check):
                 calls[0] = {"fn": "open", "doc": ids[t % len(ids)], "kw": dict(same_kw) if same_kw else
                             {"include_comments": False, "include_position": False, "expand_includes": True}}
             threads.append(calls)
-        sk = k.choice(["random", "random", "pct", "pct", "starve", "fine_start", "fine_start"])
+        sk = k.choice(["random", "random", "pct", "pct", "starve", "fine_start", "entry_sync", "entry_sync"])
         sched = {"kind": sk, "seed": s("schedule").randrange(1 << 30)}
         if sk == "pct":
             sched["d"] = k.choice([1, 2, 3])
@@ -266,6 +266,8 @@ class C12(core.Check):
             sched["stall_frac"] = k.choice([0.3, 0.6, 0.9])
         if sk == "fine_start":
             sched["fine_steps"] = k.choice([100, 400, 2000])
+        if sk == "entry_sync":
+            sched["fine_steps"] = k.choice([30, 100, 400])
         if sk == "random":
             sched["budgets"] = k.choice([[1, 2, 3, 5, 8, 13, 50, 200, 1000], [1, 1, 2, 3], [1, 2, 3, 5, 8, 13], [5, 20, 80], [50, 200, 1000, 5000], [1, 5, 1000]])
         return {"prop": "C12", "world": "W2", "seed": seed, "docs": docs, "files": files, "paths": paths, "dicts": dicts,
@@ -605,7 +607,11 @@ class C12(core.Check):
 
             def body(t, calls):
                 def f():
-                    return [list(self.do_call(c, ctx, f"t{t}c{j}")) for j, c in enumerate(calls)]
+                    out = []
+                    for j, c in enumerate(calls):
+                        simsched.call_boundary()
+                        out.append(list(self.do_call(c, ctx, f"t{t}c{j}")))
+                    return out
                 return f
 
             if deps:
